@@ -66,6 +66,57 @@ func grpcPair(r *rng) (client, server net.Conn, err error) {
 	return client, server, err
 }
 
+// kitPair returns the two plain mailbox connections (connKit over GBN over an in-memory hashmail relay,
+// no Noise layer) of a client and a server.
+func kitPair(r *rng) (client, server net.Conn, cleanup func(), err error) {
+	relay := newFakeRelay()
+	ctx, cancel := context.WithCancel(context.Background())
+	entropy := r.bytes(14)
+	cdC := mailbox.NewConnData(keyECDH(privFromRng(r)), nil, entropy, nil, nil, nil)
+	cdS := mailbox.NewConnData(keyECDH(privFromRng(r)), nil, entropy, []byte("macaroon"), nil, nil)
+	srv, err1 := mailbox.VerifNewServer("relay", cdS, relay, func(mailbox.ServerStatus) {})
+	cli, err2 := mailbox.VerifNewClient(ctx, "relay", cdC, relay)
+	if err1 != nil || err2 != nil {
+		cancel()
+		return nil, nil, nil, fmt.Errorf("%v %v", err1, err2)
+	}
+	errc := make(chan error, 1)
+	go func() {
+		var e error
+		server, e = srv.Accept()
+		errc <- e
+	}()
+	for k := 0; k < 400; k++ { // the server creates both mailboxes first; a client that comes early waits 2 s
+		relay.mu.Lock()
+		nb := relay.newBox
+		relay.mu.Unlock()
+		if nb >= 2 {
+			break
+		}
+		time.Sleep(5 * time.Millisecond)
+	}
+	client, err = cli.Dial(ctx, "")
+	select {
+	case e := <-errc:
+		if err == nil {
+			err = e
+		}
+	case <-time.After(20 * time.Second):
+		err = fmt.Errorf("Accept did not return")
+	}
+	cleanup = func() {
+		if client != nil {
+			_ = client.Close()
+		}
+		if server != nil {
+			_ = server.Close()
+		}
+		_ = srv.Close()
+		cancel()
+	}
+	return client, server, cleanup, err
+}
+
 // tcpPair returns two NoiseConn (the TCP variant) over memory.
 func tcpPair(r *rng) (a, b *mailbox.NoiseConn, ab, ba *halfPipe, err error) {
 	p := newMachinePair(r, pairCfg{minI: 0, maxI: 2, minR: 0, maxR: 2})
@@ -100,9 +151,19 @@ func TestGenC15(t *testing.T) {
 	wsizes := []int{0, 1, 2, 3, 100, 4096, 32767, 32768, 32769, 65535}
 	bsizes := []int{1, 2, 7, 100, 4096, 32768, 32769, 65535, 100000}
 	n := scale(150, 3000)
+	var kitC, kitS net.Conn
+	var kitClean func()
+	defer func() {
+		if kitC != nil {
+			kitClean()
+		}
+	}()
 	for i := 0; i < n; i++ {
 		rr := r.sub(i)
 		kind := []string{"grpc", "tcp"}[i%2]
+		if i%5 == 4 {
+			kind = "kit"
+		}
 		var writes []int
 		for k := 1 + rr.intn(5); k > 0; k-- {
 			w := wsizes[rr.intn(len(wsizes))]
@@ -120,7 +181,33 @@ func TestGenC15(t *testing.T) {
 		var rd io.Reader
 		var wr io.Writer
 		var closeW func()
-		if kind == "grpc" {
+		afterReads := func() {}
+		var all, got []byte
+		bad := ""
+		if kind == "kit" {
+			// one connection pair serves consecutive cases (setting one up takes 2 s of retry waits) as long
+			// as every byte written so far has been read back
+			if kitC == nil {
+				c, s, cleanup, err := kitPair(rr.sub(5))
+				if err != nil {
+					q.fail("c15:handshake", "kit: "+err.Error())
+					if cleanup != nil {
+						cleanup()
+					}
+					continue
+				}
+				kitC, kitS, kitClean = c, s, cleanup
+				q.stat("kit_pairs", 1)
+			}
+			wr, rd = kitC, kitReader{kitS}
+			closeW = func() {} // a GBN FIN may overtake unread data: no close between the cases
+			afterReads = func() {
+				if bad != "" || len(got) != len(all) {
+					go kitClean()
+					kitC, kitS = nil, nil
+				}
+			}
+		} else if kind == "grpc" {
 			c, s, err := grpcPair(rr.sub(5))
 			if err != nil {
 				q.fail("c15:handshake", err.Error())
@@ -137,7 +224,6 @@ func TestGenC15(t *testing.T) {
 			wr, rd = a, b
 			closeW = func() { a.Close() }
 		}
-		var all []byte
 		var accepted []int
 		var wres []string
 		for _, w := range writes {
@@ -161,8 +247,6 @@ func TestGenC15(t *testing.T) {
 		closeW()
 		// reads
 		var bufs, ns []int
-		var got []byte
-		bad := ""
 		for k := 0; k < 400; k++ {
 			bs := bsizes[rr.intn(len(bsizes))]
 			if rr.chance(1, 2) {
@@ -187,6 +271,7 @@ func TestGenC15(t *testing.T) {
 				break
 			}
 		}
+		afterReads()
 		o.line("RD %s %s | %s | %s", kind, intsString(accepted), intsString(bufs), intsString(ns))
 		key := "c15:stream-contract:" + kind
 		if bad == "" && !bytes.Equal(got, all[:min(len(got), len(all))]) {
@@ -414,4 +499,12 @@ func splitLimits(plen int, cuts []int) []int {
 		pos = c
 	}
 	return lims
+}
+
+// kitReader bounds every Read of a plain mailbox connection: lost bytes must show up as an error, not a hang.
+type kitReader struct{ c net.Conn }
+
+func (k kitReader) Read(b []byte) (int, error) {
+	_ = k.c.SetReadDeadline(time.Now().Add(5 * time.Second))
+	return k.c.Read(b)
 }
